@@ -410,7 +410,9 @@ def _fh(f):
 def _snapshot(x):
     import numpy as np
     import pandas as pd
-    if isinstance(x, (list, np.ndarray, pd.Index)):
+    if isinstance(x, np.ndarray):
+        return repr(x.tolist()), str(x.dtype), x.shape
+    if isinstance(x, (list, pd.Index)):
         return repr(list(x)), type(x).__name__, str(getattr(x, "dtype", ""))
     return None
 
@@ -435,8 +437,6 @@ def run_impl(case):
         if not case["raw"]:
             arg = ForecastingHorizon(x, is_relative=flag)
         out = attempt(lambda: check_fh(arg, enforce_relative=case["enforce"]), _fh)
-        if "err" not in out and not case["raw"]:
-            out["same_object"] = True  # identity is not required; values and flag are compared
         out["mutated"] = before != _snapshot(x)
         return out
 
@@ -793,7 +793,10 @@ def distribution(cases, results):
     import collections
     d = collections.Counter()
     for c, r in zip(cases, results):
-        o = r.get("out") or {}
+        o = r.get("out")
+        if o is None:
+            d["driver-error"] += 1
+            continue
         acc = "rejected" if "err" in o else "accepted"
         d["%s:%s" % (c["kind"], acc)] += 1
         d["container:%s" % c["container"]] += 1
